@@ -53,6 +53,9 @@ def main():
             prev = json.load(open(os.path.join(out, "meta.json")))
         except Exception:  # noqa
             prev = {}
+    for k in ("change", "needs_to_manifest", "breaks_property"):
+        if prev.get(k):
+            meta[k] = prev[k]
     if skip_ctest and prev.get("steps", {}).get("ctest"):
         meta["steps"]["ctest"] = prev["steps"]["ctest"]
         meta["steps"]["ctest"]["note"] = "carried over from the confirmation run of " + prev.get("confirmed_at", "?")
